@@ -597,7 +597,7 @@ func init() {
 		Explanation: "Decides the structural clause 'the codec tables are complete and symmetric': every expr.Expr implementation registered once with a unique msgpack extension id; goexpr types constructible from SQL registered; every field read by an expression's behavioural methods restored on decode (exported/default-coded or assigned in DecodeMsgpack, function-valued fields from the constructor's registry); custom encoder/decoder operand sequences equal; all message structs crossing SendMsg/RecvMsg fully exported (FlatRow.fields restored by the receiver).",
 		NotDecided:  []string{"byte-level fidelity of msgpack, snappy and gRPC", "float formatting / NaN payloads", "value equality of decoded expressions on data (needs execution)"},
 		Assumptions: []string{"msgpack v3.1.4: structs are encoded as maps of exported and embedded fields; types with EncodeMsgpack/DecodeMsgpack use those; RegisterExt ids select the decoded type"},
-		Rules:       []func(*Ctx){ruleC20a, ruleC20b, ruleC20c, ruleC20d, ruleC20e, ruleC20f},
+		Rules:       []func(*Ctx){ruleC20a, ruleC20b, ruleC20c, ruleC20d, ruleC20e, ruleC20f, ruleC20g, ruleC20h},
 	})
 }
 
@@ -811,4 +811,152 @@ func uniqJoin(s []string) string {
 		out = append(out[:3], "…")
 	}
 	return strings.Join(out, ", ")
+}
+
+// ruleC20g: msgpack decodes INTO the object it is given; a receive loop that
+// hands decoded messages on (to another goroutine, a channel, a consumer that
+// keeps them) needs a fresh object per message.
+func ruleC20g(c *Ctx) {
+	const rule = "C20.g"
+	c.describe(rule, "flow: every stream.RecvMsg executed inside a loop in packages rpc and rpc/server decodes into an object allocated in that same iteration — a reused message object makes every row already handed on change under its consumer (rows and keys alias the previous message's backing arrays)")
+	n := 0
+	for _, fn := range c.P.ModFns {
+		pk := pkgOf(fn)
+		if pk != "z/rpc" && pk != "z/rpc/server" {
+			continue
+		}
+		for _, call := range calls(fn) {
+			if !strings.HasSuffix(calleeName(call), ".RecvMsg") {
+				continue
+			}
+			l := innermostLoop(fn, call.Block())
+			if l == nil {
+				continue
+			}
+			n++
+			c.touch(fn)
+			a := call.Common().Args
+			arg := a[len(a)-1]
+			v := strip(arg)
+			if mi, ok := arg.(*ssa.MakeInterface); ok {
+				v = strip(mi.X)
+			}
+			fresh := false
+			var where ssa.Value = v
+			// direct allocation, or a load of a cell whose only store inside the loop is a fresh allocation
+			if al, ok := v.(*ssa.Alloc); ok && l.body[al.Block()] {
+				fresh = true
+			}
+			if u, ok := v.(*ssa.UnOp); ok && u.Op == token.MUL {
+				cell := cellRoot(u.X)
+				nIn, allFresh := 0, true
+				for _, st := range cellStores(topOf(fn), cell) {
+					if st.Parent() == fn && l.body[st.Block()] {
+						nIn++
+						al, isAl := strip(st.Val).(*ssa.Alloc)
+						if !isAl || !l.body[al.Block()] || !instrReaches(st, call.(ssa.Instruction), blockSet{l.header: true}) {
+							allFresh = false
+						}
+					}
+				}
+				fresh = nIn > 0 && allFresh
+			}
+			if ph, ok := v.(*ssa.Phi); ok {
+				// m = phi[initial, fresh-in-loop]: the value used by a RecvMsg in the loop must be the in-loop allocation
+				_ = ph
+			}
+			_ = where
+			top := topOf(fn)
+			c.check(rule, stableName(top)+": receive #"+itoa(perTopCount(c, rule, top))+" in a loop decodes into a fresh message", call.Pos(), fresh, "the message object is allocated in the same iteration", "stream.RecvMsg inside a loop decodes into an object that outlives the iteration: msgpack reuses the previous message's *FlatRow / key / value arrays, so rows already handed to the merging goroutine are overwritten by later ones")
+		}
+	}
+	c.floor(rule, "RecvMsg calls inside loops", n, 3)
+}
+
+// ruleC20h: what the leader asked for reaches the follower's query function.
+func ruleC20h(c *Ctx) {
+	const rule = "C20.h"
+	c.describe(rule, "flow: in (*client).ProcessRemoteQuery the context handed to the query function carries, on every path, the request's IncludeMemStore flag (derived through common.WithIncludeMemStore(…, q.IncludeMemStore)) and, under q.HasDeadline, the request's deadline — a flag attached to a context that is then replaced is lost and the follower silently answers a different question")
+	fn := c.need(rule, "(*z/rpc.client).ProcessRemoteQuery")
+	if fn == nil {
+		return
+	}
+	var qp *ssa.Parameter
+	for _, p := range fn.Params {
+		if typeStr(p.Type()) == "z/planner.QueryClusterFN" {
+			qp = p
+		}
+	}
+	n := 0
+	for _, call := range calls(fn) {
+		if qp == nil || !isCallOfParam(call, qp) {
+			continue
+		}
+		n++
+		ctxArg := call.Common().Args[0]
+		var carries func(v ssa.Value, what string, seen map[ssa.Value]bool) bool
+		carries = func(v ssa.Value, what string, seen map[ssa.Value]bool) bool {
+			v = strip(v)
+			if seen[v] {
+				return true
+			}
+			seen[v] = true
+			switch x := v.(type) {
+			case *ssa.Phi:
+				for _, e := range x.Edges {
+					if !carries(e, what, seen) {
+						return false
+					}
+				}
+				return true
+			case *ssa.Extract:
+				return carries(x.Tuple, what, seen)
+			case *ssa.UnOp:
+				if x.Op == token.MUL {
+					sts := cellStores(fn, cellRoot(x.X))
+					if len(sts) == 0 {
+						return false
+					}
+					for _, st := range sts {
+						if !carries(st.Val, what, seen) {
+							return false
+						}
+					}
+					return true
+				}
+			case *ssa.Call:
+				cn := calleeName(x)
+				if cn == what {
+					return true
+				}
+				if strings.HasPrefix(cn, "context.With") || cn == "z/common.WithIncludeMemStore" {
+					return carries(x.Call.Args[0], what, seen)
+				}
+			}
+			return false
+		}
+		okMS := carries(ctxArg, "z/common.WithIncludeMemStore", map[ssa.Value]bool{})
+		c.check(rule, "ProcessRemoteQuery: the query context carries IncludeMemStore", call.Pos(), okMS, "every definition of the context passes through common.WithIncludeMemStore", "on some path the context handed to the query function was not derived from common.WithIncludeMemStore(…, q.IncludeMemStore) (e.g. the deadline context is built from stream.Context() again): a fresh query with a deadline is answered without the follower's memstore")
+		// the include flag is the request's
+		okSrc := false
+		for _, c2 := range callsTo(fn, "z/common.WithIncludeMemStore") {
+			if isFieldLoad(c2.Common().Args[1], "z/rpc.Query.IncludeMemStore") {
+				okSrc = true
+			}
+		}
+		c.check(rule, "ProcessRemoteQuery: IncludeMemStore is the request's flag", call.Pos(), okSrc, "WithIncludeMemStore(ctx, q.IncludeMemStore)", "the include-memstore value attached to the context is not the one the leader sent")
+		// deadline: on the HasDeadline side the context derives from WithDeadline
+		okDL := false
+		for _, c2 := range callsTo(fn, "context.WithDeadline") {
+			if isFieldLoad(c2.Common().Args[1], "z/rpc.Query.Deadline") {
+				for _, g := range guardsOf(c2.Block()) {
+					if g.pos && isFieldLoad(g.v, "z/rpc.Query.HasDeadline") {
+						okDL = true
+					}
+				}
+			}
+		}
+		c.check(rule, "ProcessRemoteQuery: the request's deadline bounds the follower's query", call.Pos(), okDL, "context.WithDeadline(…, q.Deadline) under q.HasDeadline", "the follower does not run the query under the deadline the leader sent")
+	}
+	c.floor(rule, "query function calls in ProcessRemoteQuery", n, 1)
 }
